@@ -18,16 +18,21 @@
      - everything about from_opgraph.
    [cover_okb] asks for a valid duplicate-free cover and, when the bipartite graph has one V vertex (the last site), size <= 1
    (any minimum cover): with a valid but non-minimum cover at the last site the code's [assert len(vlist_next) == 1] fires.
+     - C05_consistent_cannot_fail: for every graph the model returns (any cover oracle) pytenet's own is_consistent never
+       answers False, at any fuel (the code's final [assert graph.is_consistent()] cannot fail): cross references, sorted
+       opics, clean terminals and an explicit level function (every edge goes up exactly one level), Proofs/FromOpchainsCons.v;
+     - C05_from_opchains_total_partial: the headline — wf chains, model cover, no cover hypothesis: Ok g, linked,
+       consistency check cannot fail, den g = chain sum.
    NOT PROVED (validated on every generated case by the correspondence check, evaluated in Coq):
-     - the level part of is_consistent (every node on a single level), empty edge lists at the terminals, sorted opics
-       — the cross-reference part IS proved ([linked]) —, and glength g = Some L;
+     - glength g = Some L (the level function is there; missing: every non-final node on the first-out-edge path has an
+       out-edge, which needs "every frontier node owns a half-chain" through the site loop);
      - that node charges along every path are the chain's interleaved charges (the charge assertions of the code are
        modelled and proved never to fire under wf_chains: part of C05_from_opchains_ok_partial). *)
 From Coq Require Import ZArith List Bool Lia Sorted.
 From PT Require Import Base.Scalar Base.BigSum Base.Mx Model.OpGraph Model.Tensor Model.FromOpchains Model.GraphMPO
                        Proofs.FromOpchainsPart Proofs.GraphMPOSem Proofs.DenRev_C05 Proofs.PampDen_C05
                        Proofs.FromOpchainsThm Proofs.C05Final Proofs.FromOpchainsOk3 Proofs.FromOpchainsCover
-                       Proofs.FromOpchainsWF3 Proofs.C05Total.
+                       Proofs.FromOpchainsWF3 Proofs.FromOpchainsCons Proofs.C05Total.
 Import ListNotations.
 Open Scope Z_scope.
 
@@ -74,6 +79,21 @@ Theorem C05_chains_den_full : forall (R : cring) cover (chains : list (chain R))
   from_opchains cover chains L idn = Ok g -> linked g = true /\ forall w, den g w = chains_den L idn chains w.
 Proof. exact from_opchains_den_full. Qed.
 Print Assumptions C05_chains_den_full.
+
+(* pytenet's own consistency check never answers False on a returned graph (any cover oracle, any fuel) *)
+Theorem C05_consistent_cannot_fail : forall (R : cring) cover (chains : list (chain R)) L idn g, (1 <= L)%nat ->
+  from_opchains cover chains L idn = Ok g -> forall fuel b, is_consistent_fuel fuel g = Some b -> b = true.
+Proof. exact from_opchains_consistent. Qed.
+Print Assumptions C05_consistent_cannot_fail.
+
+(* headline (glength g = Some L still missing, hence _partial): no hypothesis on covers *)
+Theorem C05_from_opchains_total_partial : forall (R : cring) (chains : list (chain R)) L idn,
+  wf_chains L chains = true -> (1 <= L)%nat ->
+  exists g, from_opchains cover_model chains L idn = Ok g /\ linked g = true /\
+            (forall fuel b, is_consistent_fuel fuel g = Some b -> b = true) /\
+            forall w, den g w = chains_den L idn chains w.
+Proof. exact from_opchains_total_model_cons. Qed.
+Print Assumptions C05_from_opchains_total_partial.
 
 (* the regrouping lemma of the site partition (first-occurrence indexing, gamma accumulation) *)
 Theorem C05_site_partition_regroup : forall (R : cring) (hcs : list (hchain * R)) (F : unode -> hchain -> R),
